@@ -30,6 +30,7 @@ type Sched struct {
 	// "after-proposal" items: dropped when the proposal came AvoidGap±AvoidWin after the previous one
 	AvoidGap, AvoidWin time.Duration
 	KeepInFlight       bool
+	Split              bool // one recipient's share of a gossiped transaction (the universe knows it already)
 	done               bool
 }
 
@@ -47,6 +48,13 @@ type TimedOpts struct {
 	// TxLag: the initial transactions have reached only a drawn part of the pools; a node that is asked for one it
 	// lacks is handed it (OnTransaction) within one latency of the request - transaction gossip in a fault-free network
 	TxLag bool
+	// TxJitter: a new transaction reaches the pools one by one, each within one latency (gossip), instead of at one instant;
+	// a node that has asked its application for it is handed it (OnTransaction) when it arrives.
+	TxJitter bool
+	// LandOnSubscribePct: chance that a transaction reaches a node's pool while that node is registering its
+	// single-use subscription - after the library's last look at the pool, before the listener exists, so that no
+	// notification is sent for it (the others receive it by gossip within one latency).
+	LandOnSubscribePct int
 	// SlowApp: identities whose application takes up to SlowLag to call Reset after a block.
 	SlowApp map[int]bool
 	SlowLag time.Duration
@@ -89,6 +97,25 @@ func RunTimed(w *World, o TimedOpts) *Timed {
 	t := &Timed{W: w, O: o, resetAt: map[*Node]time.Time{}, nextSync: map[*Node]time.Time{}, supplying: map[*Node]map[vt.H]bool{}}
 	w.Timed = true
 	w.MaxLat = o.MaxLat
+	if o.LandOnSubscribePct > 0 {
+		w.SubHook = func(n *Node) {
+			// (only the speaker's subscription: a backup subscribes at its first timeout, and a transaction appearing
+			// there races the other backups' first timeouts - the boundary at which the synchrony premise does not hold)
+			if !n.D.IsPrimary() || t.r("landonsub", 100) >= t.O.LandOnSubscribePct {
+				return
+			}
+			tx := w.NewTx(false)
+			n.AddTx(tx)
+			w.Stat("tx_landed_while_subscribing")
+			w.act("tx %x lands in the pool of %d while it subscribes", uint64(tx), n.ID)
+			now := w.Clock.Sub(w.Cfg.Epoch)
+			for _, o := range w.Nodes {
+				if o != nil && o != n {
+					t.O.Plan = append(t.O.Plan, Sched{At: now + time.Duration(t.r("gossiplat", 21))*t.O.MaxLat/20, Kind: "tx", Tx: tx, To: []int{o.ID}, Split: true})
+				}
+			}
+		}
+	}
 	silent := map[int]bool{}
 	for _, s := range o.Silent {
 		silent[s] = true
@@ -473,18 +500,43 @@ func (t *Timed) step() bool {
 				}
 			}
 		case "tx":
-			w.Universe = append(w.Universe, s.Tx)
-			w.act("tx %x -> %v", uint64(s.Tx), s.To)
-			w.Stat("tx_arrival")
-			for _, id := range s.To {
+			it := *s // (the plan may grow below)
+			if !it.Split {
+				w.Universe = append(w.Universe, it.Tx)
+				w.Stat("tx_arrival")
+			}
+			if t.O.TxJitter && !it.Split && len(it.To) > 1 {
+				for _, id := range it.To {
+					t.O.Plan = append(t.O.Plan, Sched{At: it.At + time.Duration(t.r("gossiplat", 21))*t.O.MaxLat/20, Kind: "tx", Tx: it.Tx, To: []int{id}, Split: true})
+				}
+				w.Stat("tx_arrival_gossiped")
+				break
+			}
+			w.act("tx %x -> %v", uint64(it.Tx), it.To)
+			for _, id := range it.To {
 				n := w.Nodes[id]
-				if n == nil || n.Crashed {
+				if n == nil || n.Crashed || !n.AddTx(it.Tx) {
 					continue
 				}
-				if n.AddTx(s.Tx) && n.Subscribed {
-					n.Subscribed = false
-					n.NewTransaction()
-					t.afterCall(n)
+				// the application tells the library about a transaction it has asked for, and notifies a subscriber
+				_, wanted := n.Want[it.Tx.Hash()]
+				notify := n.Subscribed
+				first := t.r("handfirst", 2) == 0
+				for k := 0; k < 2; k++ {
+					if wanted && (k == 0) == first {
+						delete(n.Want, it.Tx.Hash())
+						w.Stat("tx_arrival_wanted")
+						n.Transaction(it.Tx)
+						t.afterCall(n)
+					}
+					if notify && (k == 0) != first {
+						n.Subscribed = false
+						if n.D.IsBackup() && n.D.RequestSentOrReceived() {
+							w.Stat("notified_backup_holds_proposal")
+						}
+						n.NewTransaction()
+						t.afterCall(n)
+					}
 				}
 			}
 		}
